@@ -132,6 +132,7 @@ class core_modf(Contract):
     params = {'x': 'Float', 'ctx': 'Context'}
     returns = 'tuple[Float, Float]'
     properties = ['C20']
+    options = {'noax_first_ms': 4000, 'theory_light': True}
     note = 'for every context (abstract Context.round); integral + fractional == x, C modf special cases'
 
     def post(x, ctx, result):
@@ -157,6 +158,14 @@ class core_modf(Contract):
             })
             return out
         # finite nonzero: exact recombination, integral part is an integer, |fractional| < 1, signs of x
+        # proof steps (contracts/c20x_lemmas.py): an exact rounding re-encodes its operand
+        he, hc, le, lc = split_parts(xr._exp, xr._c, -1)
+        if hc != 0:
+            apply_lemma('C20x_reenc_e', ea=he, ca=hc, er=i._real._exp, cr=i._real._c)
+        if lc != 0:
+            apply_lemma('C20x_reenc_e', ea=le, ca=lc, er=f._real._exp, cr=f._real._c)
+        if -1 >= xr._exp and -1 < e_of(xr):
+            apply_lemma('C20x_reenc_sum', h=i._real, l=f._real, x=xr, n=-1)
         out.update({
             'finite': fl_finite(i) and fl_finite(f),
             'sum': sum2_eq(i._real, f._real, xr),
